@@ -856,8 +856,9 @@ def sym_interp(x, xp, fp, left=None, right=None):
     f0, f1 = fp[lo], fp[hi]
     if _isnan(f0) or _isnan(f1):
         return SymNaN
-    slope = (f1 - f0) / (x1 - x0)
-    return _lift_value(slope) * (x - x0) + _lift_value(f0)
+    # linear interpolation in exact arithmetic (numpy evaluates slope*(x - x0) + f0 in floats; rounding is outside)
+    F0, F1 = _lift_value(f0), _lift_value(f1)
+    return F0 + (F1 - F0) * ((x - const(x0)) / (const(x1) - const(x0)))
 
 
 def _isnan(v):
